@@ -304,6 +304,19 @@ def by_name_twin(ctx):
             elif isinstance(n, ast.JoinedStr) and n.values and isinstance(n.values[0], ast.FormattedValue) \
                     and any(isinstance(v, ast.Constant) and "(" in str(v.value) for v in n.values[1:2]):
                 uses.append(n.values[0].value)
+            elif isinstance(n, ast.Call) and isinstance(n.func, ast.Attribute) and n.func.attr == "format" \
+                    and isinstance(n.func.value, ast.Constant) and isinstance(n.func.value.value, str):
+                # the same call text spelled with str.format: '{}({}, {})'.format(func.__name__, ...) / '{name}(...)'.format(name=...)
+                m = re.match(r"\{(\w*)\}\(", n.func.value.value)
+                if m and (m.group(1) == "" or m.group(1).isdigit()) and n.args and not isinstance(n.args[0], ast.Starred):
+                    uses.append(n.args[int(m.group(1) or 0)] if int(m.group(1) or 0) < len(n.args) else n.args[0])
+                elif m and m.group(1):
+                    kw = [k_.value for k_ in n.keywords if k_.arg == m.group(1)]
+                    if kw:
+                        uses.append(kw[0])
+            elif isinstance(n, ast.BinOp) and isinstance(n.op, ast.Mod) and isinstance(n.left, ast.Constant) and isinstance(n.left.value, str) \
+                    and n.left.value.startswith("%s("):
+                uses.append(n.right.elts[0] if isinstance(n.right, ast.Tuple) and n.right.elts else n.right)
             for name_expr in uses:
                 k += 1
                 c = f"{q}#by-name{k}"
@@ -314,7 +327,11 @@ def by_name_twin(ctx):
                     ctx.violation(c, f"by-name use {un(n)[:80]!r} does not name the function of the cache entry looked up "
                                      f"in this call (expected <func>.__name__ of `keys_out, func = self[...]`): it can "
                                      f"resolve to a function compiled for different operands", n)
-        if k == 0:
+        if k == 0 and q.startswith("taperecorder."):
+            # the recorder's emitted call is also decided by interpretation, whatever its spelling (C11.emission-pairing: the callee name, the
+            # recorded keys and the operand expressions come from one cache look-up) - that rule runs in this check as well
+            ctx.ok(f"{q}#by-name (decided by C11.emission-pairing)", fn, note="no syntactic by-name use recognised; the emitted call is interpreted")
+        elif k == 0:
             raise Unknown(q, "no by-name use (numspace lookup / emitted call) found in a function that dispatches by name", fn)
 
 
